@@ -222,8 +222,19 @@ class Cond:
                         return self._mk(("val", x[1]), (want_eq, frozenset([v])))
                     if y[0] == "const" and x[0] == "place" and isinstance(y[1], int):
                         return self._mk(("val", x[1]), (want_eq, frozenset([y[1]])))
-            # VecDeque/Vec is_empty etc: opaque predicate calls
-            key = ("call", nm, tuple(expr_str(a) for a in args), tuple(sorted(set(sum((places_in(a) for a in args), [])))))
+            # local straight-line predicate (e.g. `eof_received`): use its body when
+            # the body is itself understood as a constraint on places
+            inl = prog.inline_getter(e, "full")
+            if inl is not None and inl[0] == "call":
+                inm = callee_name(inl) or ""
+                if inm.split("::")[-1] in ("is_some", "is_none", "is_ok", "is_err", "eq", "ne"):
+                    got = self._cons(fn, inl, vs, depth + 1)
+                    if got and all(k[0] == "val" for k, _ in got):
+                        return got
+            # opaque predicate calls: keyed by callee and argument expressions; the
+            # key depends on the places mentioned by the arguments and, for a local
+            # callee with a `self` receiver, on the fields the callee reads
+            key = ("call", nm, tuple(expr_str(a) for a in args), self._call_reads(nm, args))
             return self._mk(key, BOOL_TRUE if b else BOOL_FALSE)
         if k == "binop" and e[1] in ("Eq", "Ne"):
             b = _as_bool(vs)
@@ -242,6 +253,19 @@ class Cond:
             key = ("expr", expr_str(e), tuple(sorted(set(places_in(e)))))
             return self._mk(key, BOOL_TRUE if b else BOOL_FALSE)
         return []
+
+    def _call_reads(self, nm, args):
+        reads = set()
+        for i, a in enumerate(args):
+            ps = places_in(a)
+            if i == 0 and nm in self.prog.by_norm and len(ps) == 1:
+                fields = refs_of(self.prog, nm)
+                if fields is not None and "*" not in fields:
+                    for f in fields:
+                        reads.add(ps[0] + "." + f)
+                    continue
+            reads.update(ps)
+        return tuple(sorted(reads))
 
     def _mk(self, key, vs):
         if self.track(key):
@@ -294,6 +318,67 @@ def first_field(place_str, root="self"):
     if place_str.startswith(root + "@") or place_str.startswith(root + "["):
         return "*"
     return None
+
+
+_REFS = {}
+
+
+def refs_of(prog, norm, _stack=()):
+    """First-level fields of `self` (arg 1) read by a local function, transitively
+    through calls that pass `self` on; None if unknown, '*' if the whole object."""
+    key = (id(prog), norm)
+    if key in _REFS:
+        return _REFS[key]
+    fn = prog.by_norm.get(norm)
+    if fn is None or fn.arg_count < 1 or norm in _stack:
+        return None if fn is None or fn.arg_count < 1 else set()
+    root = None
+    for name, l, proj in fn.var_places:
+        if l == 1 and not proj:
+            root = name
+    if root is None:
+        return None
+    eb = ExprBuilder(prog, fn, inline=False)
+    out = set()
+
+    def note(e):
+        for p in places_in(e):
+            f = first_field(p, root)
+            if f:
+                out.add(f)
+
+    for b in fn.live_blocks():
+        blk = fn.blocks[b]
+        for st in blk["stmts"]:
+            if st["k"] == "assign":
+                note(eb.rvalue(st["rv"]))
+        t = blk["term"]
+        if t["k"] == "call":
+            e = eb.call(b, t)
+            tgts = prog.call_targets(t)
+            for i, a in enumerate(e[3]):
+                r = a
+                while r[0] == "ref":
+                    r = r[2]
+                if i == 0 and r[0] == "place" and r[1] == root:
+                    if not tgts:
+                        out.add("*")
+                    for tg in tgts:
+                        sub = refs_of(prog, tg.norm, _stack + (norm,))
+                        if sub is None:
+                            out.add("*")
+                        else:
+                            out.update(sub)
+                else:
+                    note(a)
+        elif t["k"] == "switch":
+            note(eb.operand(t["discr"]))
+    for c in prog.closures_of(fn):
+        # closures created here read captured places under their own names; be
+        # conservative only if they capture `self` itself
+        pass
+    _REFS[key] = out
+    return out
 
 
 class Mods:
@@ -602,7 +687,24 @@ class Flow:
                             worlds = self._kill_place(worlds, sub + "." + f)
                 else:
                     worlds = self._kill_place(worlds, sub)
-        worlds = self._kill_place(worlds, fn.place_str(t["dest"]))
+        dest = fn.place_str(t["dest"])
+        worlds = self._kill_place(worlds, dest)
+        if self.gen and t["dest"]["ty"] == "bool" and self.track(("val", dest)):
+            # correlate a bound boolean call result with the predicate it came from
+            ei = self.eb.call(b, t)
+            ct = self.cond._cons(fn, ei, BOOL_TRUE, 0)
+            cf = self.cond._cons(fn, ei, BOOL_FALSE, 0)
+            out = set()
+            for w in worlds:
+                for cs, bit in ((ct, 1), (cf, 0)):
+                    cur = world_set(w, ("val", dest), (True, frozenset([bit])))
+                    for key, vs in cs:
+                        cur = world_refine(cur, key, vs)
+                        if cur is None:
+                            break
+                    if cur is not None:
+                        out.add(cur)
+            worlds = frozenset(out)
         return worlds
 
     def _run(self):
